@@ -575,6 +575,10 @@ def init_rules(F, R, nm, d, m, cs):
         want_sdata = "core::slice::<impl [T]>::get_unchecked_mut($__flatty_bytes, RangeTo{utils::floor_mul(core::slice::<impl [T]>::len($__flatty_bytes), %d)})" % a
         ok = len(ws) == 1 and ws[0]["types"] == want and ws[0]["kind"] == "new" and ws[0]["data"] == want_sdata
         ok = ok and _field_emplacements(body, em, None, len(want), set(range(body.n)))
+        if len(want) > 1:
+            R.ob("R1.fields-in-order", fn, "order", _fields_in_order(body, None, len(want)),
+                 "%s: fields are written in declaration order, the fallible last field last (a failure leaves the earlier, sized fields of the new value written)" % nm,
+                 where=b["span"])
         R.ob("F6.init-list", fn, "fields", ok,
              "%s: the initialiser checks and walks the declared field list %s; field k of the Init value is emplaced into slot k%s" % (
                  nm, want, "" if ok else " -- found %s" % [(w["types"], w["kind"], w["data"]) for w in ws]), where=b["span"])
@@ -587,6 +591,7 @@ def init_rules(F, R, nm, d, m, cs):
     sbb, tvm, other = sw[0]
     okl, oktag, okdata, r1 = True, True, True, True
     r1b = True
+    r1c, n_multi = True, 0
     why = ""
     a = cs.get("ALIGN")
     want_data = payload_range("get_unchecked_mut", do, a)
@@ -625,6 +630,10 @@ def init_rules(F, R, nm, d, m, cs):
         if not _field_emplacements(body, [c for c in em if c[0] in reg], vname, len(want), reg):
             okl = False
             why = "variant %s: field/slot order" % vname
+        if len(want) > 1:
+            n_multi += 1
+            if not _fields_in_order(body, vname, len(want)):
+                r1c = False
         # R1 (C18): the tag store is dominated by the success edge of the per-variant size gate on the same payload range
         if tags and w:
             g = [c for c in gates if c[0] in reg]
@@ -664,6 +673,9 @@ def init_rules(F, R, nm, d, m, cs):
         R.ob("V5i.init-range", fn, "enum-payload-range", okdata,
              "%s: the initialiser hands the field emplacers exactly the payload the returned view covers (floor_mul(len - DATA_OFFSET, ALIGN=%s))" % (nm, a),
              where=b["span"])
+        if n_multi:
+            R.ob("R1.fields-in-order", fn, "order", r1c,
+                 "%s: within a variant the fields are written in declaration order, the fallible last field last" % nm, where=b["span"])
         R.ob("R1.tag-before-fields", fn, "order", r1b,
              "%s: the new tag is stored before any field of the new variant is emplaced (payload and tag never disagree about the variant being written)" % nm,
              where=b["span"])
@@ -693,7 +705,20 @@ def _field_emplacements(body, em_calls, vname, nfields, reg):
             else:
                 good = slot.startswith("iter::DataIter::<'a, D, iter::SingleType<T>>::finalize(") and nn == k
             seen[k] = good
+            _LAST_ORDER.setdefault(id(body), {})[(vname, k)] = bb_
     return sorted(seen) == list(range(nfields)) and all(seen.values())
+
+
+_LAST_ORDER = {}
+
+
+def _fields_in_order(body, vname, nfields):
+    """the emplacement of field k dominates the emplacement of field k+1: the only fallible step (the last, possibly unsized field) comes last"""
+    o = _LAST_ORDER.get(id(body), {})
+    bbs = [o.get((vname, k)) for k in range(nfields)]
+    if any(b is None for b in bbs):
+        return False
+    return all(body.dominates(bbs[k], bbs[k + 1]) and bbs[k] != bbs[k + 1] for k in range(nfields - 1))
 
 
 # ------------------------------------------------------------------ ptr_from_bytes / ptr_to_bytes
